@@ -63,13 +63,29 @@ type Site struct {
 
 var sites []Site
 var repo = "/repo"
+var schedPkgs = map[string]bool{}
+var densePkgs = map[string]bool{}
+var unsupported []string
 
 func main() {
 	passes := flag.String("passes", "map", "comma separated passes")
 	out := flag.String("out", "", "output directory for rewritten copies")
 	roots := flag.String("roots", "wa-lang.org/wa/api,wa-lang.org/wa/internal/app/appbuild", "root packages; their in-module dependencies are rewritten")
 	flag.StringVar(&repo, "repo", "/repo", "repository root")
+	sp := flag.String("schedpkgs", "", "packages that get go/blocking/lock seams (comma separated import paths)")
+	dp := flag.String("densepkgs", "", "packages that additionally get a yield before every statement")
 	flag.Parse()
+	for _, x := range strings.Split(*sp, ",") {
+		if x != "" {
+			schedPkgs[x] = true
+		}
+	}
+	for _, x := range strings.Split(*dp, ",") {
+		if x != "" {
+			schedPkgs[x] = true
+			densePkgs[x] = true
+		}
+	}
 	if *out == "" {
 		fmt.Fprintln(os.Stderr, "simrewrite: -out required")
 		os.Exit(2)
@@ -123,6 +139,9 @@ func main() {
 			if want["map"] {
 				passMap(p, file, f)
 			}
+			if want["sched"] && schedPkgs[p.PkgPath] {
+				passSched(p, file, f, densePkgs[p.PkgPath])
+			}
 			if len(f.edits) == 0 {
 				continue
 			}
@@ -139,6 +158,9 @@ func main() {
 	}
 	if nerr > 0 {
 		os.Exit(2)
+	}
+	for _, u := range unsupported {
+		fmt.Fprintln(os.Stderr, "simrewrite: unsupported (left as is):", u)
 	}
 	sb, _ := json.MarshalIndent(sites, "", " ")
 	os.WriteFile(filepath.Join(*out, "sites.json"), sb, 0o644)
@@ -179,6 +201,10 @@ func (f *fileRW) apply() []byte {
 	sort.SliceStable(es, func(i, j int) bool {
 		if es[i].off != es[j].off {
 			return es[i].off > es[j].off
+		}
+		ri, rj := es[i].end > es[i].off, es[j].end > es[j].off
+		if ri != rj {
+			return ri // replacements of original text first, then insertions in front of them
 		}
 		return es[i].seq > es[j].seq
 	})
@@ -320,4 +346,181 @@ func regKey(info *types.Info, lhs ast.Expr, f *fileRW) {
 	}
 	f.ins(ix.Index.Pos(), "verifsim.K(")
 	f.ins(ix.Index.End(), ")")
+}
+
+// ---------------------------------------------------------------- sched pass
+
+func newSite(p *packages.Package, kind string, pos token.Pos, fn string) int {
+	id := len(sites)
+	sites = append(sites, Site{ID: id, Kind: kind, Pos: relPos(p, pos), Fn: fn})
+	return id
+}
+
+func isNamed(t types.Type, pkg, name string) bool {
+	if pt, ok := t.(*types.Pointer); ok {
+		t = pt.Elem()
+	}
+	n, ok := t.(*types.Named)
+	if !ok || n.Obj().Pkg() == nil {
+		return false
+	}
+	return n.Obj().Pkg().Path() == pkg && n.Obj().Name() == name
+}
+
+// hasRecv reports whether a statement (not descending into function literals
+// or nested blocks) contains a channel receive.
+func hasRecv(n ast.Node) bool {
+	found := false
+	ast.Inspect(n, func(x ast.Node) bool {
+		switch x := x.(type) {
+		case *ast.FuncLit, *ast.BlockStmt:
+			return false
+		case *ast.UnaryExpr:
+			if x.Op == token.ARROW {
+				found = true
+			}
+		}
+		return !found
+	})
+	return found
+}
+
+func passSched(p *packages.Package, file *ast.File, f *fileRW, dense bool) {
+	info := p.TypesInfo
+	fn := ""
+	// 1. lock operations and go statements, blocking calls
+	ast.Inspect(file, func(n ast.Node) bool {
+		switch n := n.(type) {
+		case *ast.FuncDecl:
+			fn = n.Name.Name
+		case *ast.GoStmt:
+			id := newSite(p, "go", n.Pos(), fn)
+			call := n.Call
+			if lit, ok := call.Fun.(*ast.FuncLit); ok && len(call.Args) == 0 {
+				// go func() {...}()  ->  verifsim.Go(name, func() {...})
+				f.repl(n.Pos(), lit.Pos(), fmt.Sprintf("verifsim.Go(%q, ", sites[id].Pos))
+				f.repl(lit.End(), n.End(), ")")
+			} else {
+				// go f(a, b)  ->  verifsim.Go(name, func() { f(a, b) })
+				// (arguments are evaluated when the task starts; the operands at the
+				// rewritten sites are not reassigned after the go statement)
+				f.repl(n.Pos(), call.Pos(), fmt.Sprintf("verifsim.Go(%q, func() { ", sites[id].Pos))
+				f.ins(n.End(), " })")
+			}
+			return true // descend: the function literal's body still gets rewritten (edits inside the replaced text are dropped below)
+		case *ast.CallExpr:
+			sel, ok := n.Fun.(*ast.SelectorExpr)
+			if !ok {
+				return true
+			}
+			name := sel.Sel.Name
+			rt := info.TypeOf(sel.X)
+			if rt == nil {
+				return true
+			}
+			isMu := isNamed(rt, "sync", "Mutex") || isNamed(rt, "sync", "RWMutex")
+			if isMu && (name == "Lock" || name == "Unlock" || name == "RLock" || name == "RUnlock") && len(n.Args) == 0 {
+				id := newSite(p, "lock", n.Pos(), fn)
+				recv := f.text(sel.X.Pos(), sel.X.End())
+				if _, isPtr := rt.(*types.Pointer); !isPtr {
+					recv = "&" + recv
+				}
+				f.repl(n.Pos(), n.End(), fmt.Sprintf("verifsim.%s(%s, %d)", name, recv, id))
+				return false
+			}
+			if name == "Lock" || name == "Unlock" || name == "RLock" || name == "RUnlock" {
+				if s := info.Selections[sel]; s != nil && s.Obj().Pkg() != nil && s.Obj().Pkg().Path() == "sync" {
+					unsupported = append(unsupported, relPos(p, n.Pos())+": "+name+" through an embedded sync mutex")
+				}
+			}
+			if name == "Do" && isNamed(rt, "sync", "Once") {
+				unsupported = append(unsupported, relPos(p, n.Pos())+": sync.Once.Do")
+			}
+		}
+		return true
+	})
+	// 2. yields: after blocking statements, and (dense) before every statement
+	var lists func(n ast.Node)
+	doList := func(list []ast.Stmt) {
+		for _, st := range list {
+			inner := st
+			if l, ok := st.(*ast.LabeledStmt); ok {
+				inner = l.Stmt
+			}
+			switch inner.(type) {
+			case *ast.CaseClause, *ast.CommClause:
+				continue // the body list of a switch/select: clauses, not statements
+			}
+			if dense {
+				switch inner.(type) {
+				case *ast.EmptyStmt:
+				default:
+					id := newSite(p, "yield", st.Pos(), fn)
+					f.ins(st.Pos(), fmt.Sprintf("verifsim.Yield(%d)\n", id))
+				}
+			}
+			blocking := false
+			switch x := inner.(type) {
+			case *ast.SendStmt:
+				blocking = true
+			case *ast.ExprStmt, *ast.AssignStmt, *ast.DeclStmt:
+				blocking = hasRecv(x)
+				if c, ok := inner.(*ast.ExprStmt); ok {
+					if call, ok := c.X.(*ast.CallExpr); ok {
+						if sel, ok := call.Fun.(*ast.SelectorExpr); ok && sel.Sel.Name == "Wait" {
+							if rt := info.TypeOf(sel.X); rt != nil && (isNamed(rt, "sync", "WaitGroup") || isNamed(rt, "sync", "Cond")) {
+								blocking = true
+							}
+						}
+					}
+				}
+			case *ast.ReturnStmt, *ast.IfStmt, *ast.SwitchStmt, *ast.ForStmt:
+				// a receive in a return value or in an if/switch/for header cannot be followed by a yield
+				var hdr ast.Node
+				switch y := x.(type) {
+				case *ast.ReturnStmt:
+					hdr = y
+				case *ast.IfStmt:
+					if y.Init != nil && hasRecv(y.Init) || hasRecv(y.Cond) {
+						unsupported = append(unsupported, relPos(p, st.Pos())+": channel receive in an if header")
+					}
+				}
+				if hdr != nil && hasRecv(hdr) {
+					unsupported = append(unsupported, relPos(p, st.Pos())+": channel receive in a return statement")
+				}
+			}
+			if blocking {
+				id := newSite(p, "after_block", st.End(), fn)
+				f.ins(st.End(), fmt.Sprintf("\nverifsim.Yield(%d)", id))
+			}
+		}
+	}
+	lists = func(n ast.Node) {
+		ast.Inspect(n, func(x ast.Node) bool {
+			switch x := x.(type) {
+			case *ast.FuncDecl:
+				fn = x.Name.Name
+			case *ast.BlockStmt:
+				doList(x.List)
+			case *ast.CaseClause:
+				doList(x.Body)
+			case *ast.CommClause:
+				// after the communication of a select clause completed
+				if x.Comm != nil || true {
+					id := newSite(p, "after_select", x.Colon, fn)
+					f.ins(x.Colon+1, fmt.Sprintf("\nverifsim.Yield(%d)", id))
+				}
+				doList(x.Body)
+			case *ast.RangeStmt:
+				if t := info.TypeOf(x.X); t != nil {
+					if _, ok := t.Underlying().(*types.Chan); ok {
+						id := newSite(p, "after_block", x.Body.Lbrace, fn)
+						f.ins(x.Body.Lbrace+1, fmt.Sprintf("\nverifsim.Yield(%d)", id))
+					}
+				}
+			}
+			return true
+		})
+	}
+	lists(file)
 }
